@@ -92,6 +92,7 @@ class Exec(Engine):
                 if v.t.k == 'opt' and pt.k != 'opt' and v.t.args[0] == pt:
                     # passing an Optional where a value is required: None would be a TypeError inside the callee
                     ev.may_raise.append((z3.Not(v.z['none']), 'TypeError', f'None passed as `{nm}` to {c.key}'))
+                    v = SV(pt, v.z['v'])
                 out[nm] = self.coerce(v, pt)
             elif nm in c.defaults:
                 v = ev.ev(ast.parse(repr(c.defaults[nm]), mode='eval').body, pt)
